@@ -90,4 +90,69 @@ structure WinV where
 def convWindow (w : Window) : WinV :=
   { name := w.name, x := w.x, y := w.y, width := w.width, height := w.height, setback := w.setback }
 
+/-! ### loads (`loads_from_bdl`): one per SPACE-CONDITIONS block -/
+
+structure LoadsV where
+  name : Str
+  areaPerPerson : TNum
+  peopleSensible : TNum
+  peopleLatent : TNum
+  equipment : TNum
+  lighting : TNum
+  deriving Repr
+
+/-- `fround2(heat gain per person / area per person)`, 0 when the area per person is 0 (a NaN area is "not 0") -/
+def perArea (gain area : TNum) : TNum :=
+  match area with
+  | some a => if a = 0 then some 0 else gain.map (fun g => round2 (g / a))
+  | none => none
+
+/-- `none` when an attribute the code requires is missing (the conversion fails with an error) -/
+def convLoads (name : Str) (a : Attrs) : Option LoadsV :=
+  match getNum a "AREA/PERSON", getNum a "PEOPLE-HG-SENS", getNum a "PEOPLE-HG-LAT", getNum a "EQUIPMENT-W/AREA", getNum a "LIGHTING-W/AREA" with
+  | some area, sens, lat, some eq, some li =>
+    -- the gains are only read when the area per person is not 0
+    let needGains : Bool := match area with | some x => decide (x ≠ 0) | none => true
+    if needGains && (sens.isNone || lat.isNone) then none else
+    some { name := name, areaPerPerson := area, peopleSensible := perArea (sens.getD (some 0)) area,
+           peopleLatent := perArea (lat.getD (some 0)) area, equipment := eq, lighting := li }
+  | _, _, _, _, _ => none
+
+/-! ### constructions (`cons_from_bdl`): values are copied, layer by layer -/
+
+structure WallConsV where
+  name : Str
+  thickness : List TNum
+  absorptance : TNum
+  deriving Repr
+
+/-- layers pair materials with thicknesses (`zip`: the shorter list decides) -/
+def convWallCons (c : WallCons) : WallConsV :=
+  { name := c.name, thickness := (c.material.zip c.thickness).map (·.2), absorptance := c.absorptance }
+
+structure WinConsV where
+  name : Str
+  fF : TNum
+  deltaU : TNum
+  gGlshwi : Option TNum
+  c100 : TNum
+  deriving Repr
+
+def convWinCons (c : WinCons) : WinConsV :=
+  { name := c.name, fF := c.framefrac, deltaU := c.deltau, gGlshwi := c.gglshwi, c100 := c.infcoeff }
+
+structure GlassV where
+  name : Str
+  uValue : TNum
+  gGln : TNum
+  deriving Repr
+def convGlass (g : Glass) : GlassV := { name := g.name, uValue := g.conductivity, gGln := g.gGln }
+
+structure FrameV where
+  name : Str
+  uValue : TNum
+  absorptivity : TNum
+  deriving Repr
+def convFrame (f : Frame) : FrameV := { name := f.name, uValue := f.conductivity, absorptivity := f.absorptivity }
+
 end Cte.ConvV
